@@ -4,6 +4,7 @@ pub mod verif {
     pub mod bb_c05;
     pub mod bb_c06;
     pub mod bb_c10;
+    pub mod bb_c11w;
     pub mod bb_c12;
     pub mod bb_c18;
     pub mod bb_config;
